@@ -6,4 +6,3 @@ open GoguVerif.Theorems.C01
 #print axioms table_sections_wellLocked
 #print axioms containers_race_free
 #print axioms containers_deadlock_free
-#print axioms traverse_producer_progress
